@@ -778,6 +778,13 @@ static J handle(const J& cmd)
             g_api_instances[id] = h;
             reply.set("ok", h != nullptr);
         }
+        else if (fn == "destroy" && cmd.str("handle", "valid") != "valid")
+        {
+            // destroying something that is no instance must be harmless
+            static char zeroed_d[64] = { 0 };
+            sqfvm_destroy_instance(cmd.str("handle") == "null" ? nullptr : (void*)zeroed_d);
+            reply.set("ok", true).set("rc", -1);
+        }
         else if (fn == "destroy")
         {
             auto it = g_api_instances.find(id);
